@@ -940,7 +940,81 @@ def oracle_eof_honest(case, impl):
     return hits
 
 
+def oracle_ack_forcing(case, impl):
+    """C07: (a) after a poll with a working transport the receiver never sits on two segment sizes or more of consumed,
+    unacknowledged bytes; (b) a duplicate or out-of-order data packet is answered with an ACK in the poll that processes
+    it - or, if the local transport was blocked then, in the first poll after it works again."""
+    tr = Trace(case, impl)
+    hits = []
+    transport_ok = True
+    owed = None          # text of the forcing event whose ACK could not be sent yet
+    injected = []
+    lc = None
+    big_rx = True
+    for ev in tr.events:
+        if ev["op"] == "new":
+            transport_ok, owed, injected = True, None, []
+            big_rx = int(ev["opts"].get("rx", 1 << 20)) >= 65536
+            try:
+                lc = int(ev["out"].split(";lc=")[1].split(";")[0])
+            except (IndexError, ValueError):
+                lc = None
+        if ev["op"] == "tmode":
+            transport_ok = ev["args"][:1] == ["ok"]
+        if ev["op"] == "chanclose":
+            return hits
+        if ev["op"] == "inject" and ev["out"].startswith("ok"):
+            injected.append(ev.get("dgram"))
+        if ev["op"] != "poll" or "fp" not in ev:
+            continue
+        fp = ev["fp"]
+        established = fp.get("st", "").startswith(("Established", "FinWait"))
+        if not ev["res"].startswith("pending") or not established:
+            owed, injected = None, []
+            try:
+                lc = int(fp.get("lc", lc))
+            except (TypeError, ValueError):
+                pass
+            continue
+        emitted = len(ev["dgrams"]) > 0
+        forced = None
+        if len(injected) == 1 and injected[0] is not None and injected[0]["type"] == 0 and injected[0]["plen"] > 0 and lc is not None:
+            d = injected[0]
+            off = _md(d["seq"], (lc + 1) % 65536)
+            if off < 0:
+                forced = f"duplicate data packet seq {d['seq']} (already consumed up to {lc})"
+            elif 0 < off <= 8 and big_rx:
+                # (a packet beyond the reassembly window cannot be held and is ignored: not judged)
+                forced = f"out-of-order data packet seq {d['seq']} (next expected {(lc + 1) % 65536})"
+        injected = []
+        if transport_ok:
+            if (forced or owed) and not emitted:
+                hits.append({"sig": {"oracle": "ack_forcing", "what": "forced_ack_not_sent"},
+                             "text": f"poll at t={ev['t']} ns emitted nothing although an immediate ACK is owed for a {forced or owed}" + (" (the transport was blocked when it arrived and works again now)" if not forced else "")})
+                return hits
+            owed = None
+            try:
+                cbu, mss = int(fp.get("cbu", 0)), int(fp.get("ss", "min_ss=0:").split("min_ss=")[1].split(":")[0])
+            except (IndexError, ValueError):
+                cbu, mss = 0, 0
+            if mss and 2 * mss <= cbu < (1 << 62):
+                hits.append({"sig": {"oracle": "ack_forcing", "what": "two_segments_unacknowledged"},
+                             "text": f"after the poll at t={ev['t']} ns {cbu} consumed bytes are unacknowledged (segment size {mss}): from two segment sizes on an ACK must go out in that poll"})
+                return hits
+        else:
+            if forced and not emitted:
+                owed = forced
+            elif emitted:
+                owed = None
+        try:
+            lc = int(fp.get("lc", lc))
+        except (TypeError, ValueError):
+            pass
+    return hits
+
+
 ALL = {
+    "ack_forcing": oracle_ack_forcing,
     "eof_honest": oracle_eof_honest,
     "probe_discipline": oracle_probe_discipline,
     "reset": oracle_reset,
